@@ -66,6 +66,11 @@ func (p *Probe) add(e Event) {
 	p.mu.Unlock()
 }
 
+// Note records an observation made by a behaviour that is not one of the kit's instrumented ones.
+func (p *Probe) Note(proc, kind string, from gen.PID, msg any) {
+	p.add(Event{Proc: proc, Kind: kind, From: from, Msg: msg})
+}
+
 // Events returns a snapshot.
 func (p *Probe) Events() []Event {
 	p.mu.Lock()
